@@ -293,6 +293,19 @@ func randNode(r *rand.Rand, o Opts, tp *tagPool, depth int) *Node {
 }
 
 // AllFieldTags lists every field and count tag of the template.
+// FreshTag draws a tag no position of the template (and no framing field) uses.
+func (t *Template) FreshTag(r *rand.Rand) string {
+	used := map[string]bool{t.FT.Begin: true, t.FT.Len: true, t.FT.Type: true, t.FT.Sum: true}
+	for _, x := range t.AllFieldTags() {
+		used[x] = true
+	}
+	for {
+		if x := strconv.Itoa(1 + r.Intn(9999)); !used[x] {
+			return x
+		}
+	}
+}
+
 func (t *Template) AllFieldTags() []string {
 	var out []string
 	var walk func(ns []*Node)
